@@ -665,6 +665,9 @@ def script_calls(text):
         if k == "PUT" and not re.fullmatch(r"([0-9A-Fa-f]{2})+", re.sub(r"[ \t\n\r-]", "", args[1])):
             out.append(None)
             return out
+        if k == "BIND" and re.search(r"\s", args[2]):
+            out.append(("OUTSIDE",))      # a label text with a blank inside: no property speaks about it (C17: non-space characters)
+            return out
         out.append((k,) + tuple(ids) + ((args[2],) if k == "BIND" else ()))
     return out
 
@@ -682,6 +685,9 @@ def _apply_script(tr, text):
     for c in script_calls(text):
         if c is None:
             return False
+        if c[0] == "OUTSIDE":
+            tr.out_of_limits = True
+            return True
         ids = [val(i) for i in c[1:(3 if c[0] == "BIND" else 2)]]
         if tr.out_of_limits or any(i is None for i in ids):
             return True
